@@ -211,6 +211,11 @@ func execRoundtrip(a []string) Result {
 	extra := map[string]int{}
 	// attachments on the invocation(s) and on one proof
 	var attached [][]int = make([][]int, len(w.Tokens))
+	// the tokens have been stored once already, before anything is attached to them
+	for _, d := range cw.D {
+		io.ReadAll(d.Archive())
+		delegation.Format(d)
+	}
 	aseed := 0
 	if len(a) > 2 {
 		aseed = atoi(a[2])
